@@ -484,6 +484,33 @@ func check(s *sys, m *lib.Model[*sys], descs []opDesc, hist []int, obs []string,
 	if len(s.ref.members) > 1 {
 		rep.Count("rotations_over_several_members")
 	}
+	// (4) through the rebalancer, SLOW traffic: all meters ready and healthy, one request per back-off interval
+	// (every request finds the adjustment timer expired). Whatever the rebalancer does to its weights meanwhile,
+	// every positive-weight member must be selected within a bounded number of requests - six adjustments to
+	// converge, then two rotations.
+	if s.v.rebalancer && len(s.ref.members) > 1 {
+		for _, mt := range s.meters {
+			mt.ready, mt.rating = true, 0
+		}
+		hit := map[string]int{}
+		n := 8 + 2*W
+		for k := 0; k < n; k++ {
+			clock.Advance(time.Second + time.Millisecond)
+			served, seen, _ := s.request(false, "")
+			if served {
+				if i := s.ref.find(identity(mustURL(seen))); i >= 0 {
+					hit[s.ref.members[i].id]++
+				}
+			}
+		}
+		rep.Count("slow_traffic_rotations")
+		for _, mb := range s.ref.members {
+			if mb.weight > 0 && hit[mb.id] == 0 {
+				rep.Violate(prop+":member-starved-under-slow-traffic:"+vk, fmt.Sprintf("healthy pool %v, one request per back-off interval: member %s (weight %d) was not selected in %d requests (hits %v)", s.ref.members, mb.id, mb.weight, n, hit), what())
+				return
+			}
+		}
+	}
 }
 
 // checkLast: the contract of the operation that has just been applied.
